@@ -80,6 +80,16 @@ func Oracle(r *hx.Run, id string, c dialx.Case, o dialx.Obs) {
 		if !failed && o.LastVerb != "QUIT" {
 			r.Fail(id, "success-without-quit", "DialAndSendWithContext succeeded but the last command was "+o.LastVerb+": "+what)
 		}
+	case "sess":
+		// DialWithContext, Send, Reset, Close: a failed dial must have closed the connection; after Close() has returned
+		// (with or without an error) the connection must be closed whatever happened in between
+		if open {
+			cls := "close-leaves-connection-open"
+			if len(o.Results) == 1 {
+				cls = "dial-error-leaves-connection-open"
+			}
+			r.Fail(id, cls, "the connection is still open after the last public call returned: "+what)
+		}
 	}
 }
 
@@ -176,11 +186,16 @@ func generate(r *hx.Run, pki *dialx.PKI) []dialx.Case {
 	if thorough {
 		auths = append(auths, "SCRAM-SHA-1", "SCRAM-SHA-256-PLUS", "CUSTOM")
 	}
-	fails := []string{"451", "550", "0", "drop"}
+	// the deviation alphabet: every reply code class a server uses to refuse or shut down (421 closing channel, 4yz,
+	// 5yz incl. 530/535 auth codes), garbage, drop -- at every command position of the dial, connection-check, send and
+	// close phases.  quick: the failing tails (the QUIT / abort that follows is itself rejected or dropped) are combined
+	// with 421, 550 and drop only; thorough: with everything.
+	fails := []string{"421", "450", "451", "452", "500", "502", "503", "530", "535", "550", "554", "0", "drop"}
 	tails := [][]string{nil, {"500", "500", "500", "500"}, {"drop"}}
+	tailed := map[string]bool{"421": true, "550": true, "drop": true}
 	if thorough {
-		fails = append(fails, "421", "250", "334", "334b", "235", "999")
-		tails = append(tails, []string{"451", "451", "451", "451"}, []string{"0", "0", "0"}, []string{"ok", "500"})
+		fails = append(fails, "250", "334", "334b", "235", "999")
+		tails = append(tails, []string{"451", "451", "451", "451"}, []string{"0", "0", "0"}, []string{"ok", "500"}, []string{"421", "421", "421"})
 	}
 	add := func(base dialx.Case) {
 		if r.Expired() {
@@ -209,7 +224,13 @@ func generate(r *hx.Run, pki *dialx.PKI) []dialx.Case {
 		out = append(out, c0)
 		for p := 0; p < n; p++ {
 			for _, f := range fails {
-				for _, t := range tails {
+				for ti, t := range tails {
+					if ti > 0 && !thorough && !tailed[f] {
+						continue
+					}
+					if base.Kind == "sess" && !thorough && (ti > 0 || !tailed[f]) {
+						continue
+					}
 					c := base
 					s := append(oks(p), f)
 					s = append(s, t...)
@@ -221,14 +242,14 @@ func generate(r *hx.Run, pki *dialx.PKI) []dialx.Case {
 	}
 	for _, pol := range []string{"N", "O", "M"} {
 		for _, a := range auths {
-			for _, kind := range []string{"dial", "das"} {
+			for _, kind := range []string{"dial", "das", "sess"} {
 				hosts := []string{dialx.OtherMem}
 				if pol == "N" && (a == "PLAIN" || a == "LOGIN") {
 					hosts = append(hosts, "localhost")
 				}
 				for _, h := range hosts {
 					base := dialx.Case{Kind: kind, Policy: pol, Auth: a, Custom: "-", Host: h, Mute: -1, Caps: capsPre, CapsTLS: capsTLS, HS: "ok"}
-					if kind == "das" {
+					if kind != "dial" {
 						base.Msgs = []int{1 + r.Rng.Intn(2)}
 						if thorough {
 							base.Msgs = append(base.Msgs, 1)
